@@ -11,6 +11,7 @@
 //! * `lv`  -- for nested columns, the definition / repetition levels and leaf values read back
 //!            with the low-level column reader, next to the logical values as trees.
 //! No expectation is computed here: the specification decides.
+mod dense;
 mod levels;
 mod props;
 mod repro;
@@ -598,6 +599,7 @@ struct Counters {
     skipped: usize,
     refused: usize,
     failed: usize,
+    dense: usize,
 }
 
 /// the event that ends an episode in which the code under test failed; None when the writer
@@ -631,6 +633,11 @@ fn rt_episode(rng: &mut Rng, pool: &[DataType], max_rows: usize, tr: &mut Shards
     let inp = make_input(rng, pool, max_rows, ncols);
     let total: usize = inp.ops.iter().map(|o| o.1).sum();
     let p = Props::random(rng, &inp.schema, total);
+    run_rt(rng, &inp, &p, tr, cnt);
+}
+
+/// one serial ArrowWriter session over `inp`, recorded call by call
+fn run_rt(rng: &mut Rng, inp: &Input, p: &Props, tr: &mut Shards, cnt: &mut Counters) {
     // is the schema supported at all?  (decided by the writer: an unsupported schema is skipped)
     {
         let mut probe: Vec<u8> = vec![];
@@ -638,7 +645,7 @@ fn rt_episode(rng: &mut Rng, pool: &[DataType], max_rows: usize, tr: &mut Shards
         match step("write", || ArrowWriter::try_new(&mut probe, inp.schema.clone(), Some(props)).map(|_| ()).map_err(|e| e.to_string())) {
             Ok(()) => {}
             Err(f) => {
-                if let Some(e) = fail_event(f, &inp, &p, cnt) {
+                if let Some(e) = fail_event(f, inp, p, cnt) {
                     tr.emit(e);
                     tr.next_episode();
                 }
@@ -654,7 +661,7 @@ fn rt_episode(rng: &mut Rng, pool: &[DataType], max_rows: usize, tr: &mut Shards
     ev.insert("bytes".into(), json!(p.maxbytes.is_some()));
     ev.insert("cdc".into(), json!(p.cdc.is_some()));
     tr.emit(Value::Object(ev));
-    let res = write_serial(rng, &inp, &p, Some(tr)).and_then(|w| {
+    let res = write_serial(rng, inp, p, Some(tr)).and_then(|w| {
         let mut ev = serde_json::Map::new();
         ev.insert("op".into(), json!("close"));
         ev.insert("waf".into(), json!(w.waf));
@@ -672,7 +679,7 @@ fn rt_episode(rng: &mut Rng, pool: &[DataType], max_rows: usize, tr: &mut Shards
         }
         Err(f) => {
             // an episode may end in a failure after some calls were recorded: the `fail` event closes it
-            let e = fail_event(Fail { note: f.note.clone(), ..f }, &inp, &p, cnt)
+            let e = fail_event(Fail { note: f.note.clone(), ..f }, inp, p, cnt)
                 .unwrap_or_else(|| json!({"op": "fail", "stage": "write", "panic": false, "note": "unsupported", "feat": schema_features(&inp.schema), "cfg": "", "cdc": false, "pmsg": "", "types_in": []}));
             tr.emit(e);
         }
@@ -764,13 +771,20 @@ fn lv_episode(rng: &mut Rng, max_rows: usize, tr: &mut Shards, cnt: &mut Counter
         .collect();
     let inp = Input { schema: schema.clone(), batches, ops };
     let p = Props::random(rng, &schema, total);
+    run_lv(rng, &inp, &p, &cols[0], tr, cnt);
+}
+
+/// levels of column 0 (`col0` = all its rows) of a file written from `inp`
+fn run_lv(rng: &mut Rng, inp: &Input, p: &Props, col0: &ArrayRef, tr: &mut Shards, cnt: &mut Counters) {
+    let schema = inp.schema.clone();
+    let total = col0.len();
     let mut ev = serde_json::Map::new();
     ev.insert("op".into(), json!("lv"));
     ev.insert("cfg".into(), json!(p.describe()));
     ev.insert("types_in".into(), json!([type_str(schema.field(0).data_type())]));
     ev.insert("schema".into(), levels::schema_tree(schema.field(0)));
-    ev.insert("rows".into(), Value::Array((0..total).map(|i| levels::value_tree(cols[0].as_ref(), i)).collect()));
-    let res = write_serial(rng, &inp, &p, None).and_then(|w| {
+    ev.insert("rows".into(), Value::Array((0..total).map(|i| levels::value_tree(col0.as_ref(), i)).collect()));
+    let res = write_serial(rng, inp, p, None).and_then(|w| {
         let l = step("levels", || levels::read_levels(&w.bytes, schema.field(0)))?;
         ev.insert("leaves".into(), l.leaves);
         ev.insert("maxdef".into(), json!(l.maxdef));
@@ -784,14 +798,54 @@ fn lv_episode(rng: &mut Rng, max_rows: usize, tr: &mut Shards, cnt: &mut Counter
         }
         Err(f) => {
             if std::env::var("C05_DEBUG").is_ok() && total <= 8 && f.panic {
-                eprintln!("DEBUG lv fail: {} ops={:?} cfg={}\n{:?}", f.note, inp.ops, p.describe(), cols[0]);
+                eprintln!("DEBUG lv fail: {} ops={:?} cfg={}\n{:?}", f.note, inp.ops, p.describe(), col0);
             }
-            if let Some(e) = fail_event(f, &inp, &p, cnt) {
+            if let Some(e) = fail_event(f, inp, p, cnt) {
                 tr.emit(e);
             }
         }
     }
     tr.next_episode();
+}
+
+/// a longer nested column with null runs in the parents and a chosen leaf null density: the
+/// round trip (row tokens) and the levels (Shred) of the same input
+fn dense_episode(rng: &mut Rng, k: usize, rt: &mut Shards, lv: &mut Shards, cnt: &mut Counters) {
+    let leaves = dense::leaf_types();
+    let t = leaves[k % leaves.len()].clone();
+    let density = dense::DENSITIES[(k / leaves.len() + k) % dense::DENSITIES.len()];
+    let shape = k / 3 + k;
+    let n = 70 + rng.below(231);
+    let col = dense::column(rng, shape, &t, n, density);
+    let schema = Arc::new(Schema::new(vec![Field::new("c0", col.data_type().clone(), true), Field::new("id", DataType::Int32, false)]));
+    let ids: ArrayRef = Arc::new(Int32Array::from_iter_values(0..n as i32));
+    let cols = vec![col, ids];
+    // one long write, or two (the second batch is a slice that starts above 0)
+    let ops: Vec<(&'static str, usize)> = match rng.below(3) {
+        0 => vec![("w", n)],
+        1 => vec![("w", n - 66), ("w", 66)],
+        _ => vec![("w", 3), ("f", 0), ("w", n - 3)],
+    };
+    let mut at = 0;
+    let batches: Vec<RecordBatch> = ops
+        .iter()
+        .filter(|o| o.0 == "w")
+        .map(|o| {
+            let b = RecordBatch::try_new(schema.clone(), cols.iter().map(|c| c.slice(at, o.1)).collect()).unwrap();
+            at += o.1;
+            b
+        })
+        .collect();
+    let inp = Input { schema: schema.clone(), batches, ops };
+    let mut p = Props::random(rng, &schema, n);
+    // row groups do not cut the batches short (the children must be visited in long ranges)
+    p.maxbytes = None;
+    if rng.chance(75) {
+        p.maxrg = None;
+    }
+    run_rt(rng, &inp, &p, rt, cnt);
+    run_lv(rng, &inp, &p, &cols[0], lv, cnt);
+    cnt.dense += 1;
 }
 
 fn main() {
@@ -804,7 +858,7 @@ fn main() {
     let mut rng = Rng::new(args.seed ^ 0xC05);
     let pool = type_pool();
     let max_rows = args.scale(48, 130);
-    let mut cnt = Counters { rt: 0, par: 0, lv: 0, skipped: 0, refused: 0, failed: 0 };
+    let mut cnt = Counters { rt: 0, par: 0, lv: 0, skipped: 0, refused: 0, failed: 0, dense: 0 };
     let mut rt = Shards::create(&args.out, "rt", 14);
     let mut lv = Shards::create(&args.out, "lv", 8);
     // every type of the pool alone first (so that each is exercised in each run), then random schemas
@@ -821,10 +875,13 @@ fn main() {
     for _ in 0..args.scale(360, 9000) {
         lv_episode(&mut rng, args.scale(24, 60), &mut lv, &mut cnt);
     }
+    for k in 0..args.scale(45, 900) {
+        dense_episode(&mut rng, k, &mut rt, &mut lv, &mut cnt);
+    }
     let n1 = rt.finish();
     let n2 = lv.finish();
     println!(
-        "DRIVER c05 events={} roundtrips={} parallel={} levels={} skipped_unsupported={} refused={} failed={}",
-        n1 + n2, cnt.rt, cnt.par, cnt.lv, cnt.skipped, cnt.refused, cnt.failed
+        "DRIVER c05 events={} roundtrips={} parallel={} levels={} skipped_unsupported={} refused={} failed={} dense_nested={}",
+        n1 + n2, cnt.rt, cnt.par, cnt.lv, cnt.skipped, cnt.refused, cnt.failed, cnt.dense
     );
 }
